@@ -78,8 +78,8 @@ fn saddr_idx(a: &SocketAddress) -> i128 {
     }
 }
 
-const STRS: [&str; 10] = [
-    "", "SOZUBALANCEID", "sid", "Sozu-Id", "X-Req", "bad:colon", "bad space", "h\u{e9}", "answer A\r\n", "answer B",
+const STRS: [&str; 12] = [
+    "", "SOZUBALANCEID", "sid", "Sozu-Id", "X-Req", "bad:colon", "bad space", "h\u{e9}", "answer A\r\n", "answer B", "Host", "Content-Length",
 ];
 fn st(i: i128) -> String {
     STRS[i as usize % STRS.len()].to_string()
@@ -752,8 +752,9 @@ pub fn build_request(cx: &Ctx, op: &Op) -> Result<Option<Request>, String> {
         "set_hc" => RequestType::SetHealthCheck(SetHealthCheck { cluster_id: cid(a[0]), config: health_check(a[1]) }),
         "remove_hc" => RequestType::RemoveHealthCheck(cid(a[0])),
         "add_listener" => {
+            // a[4] is the generator's claim about validate_sozu_id_header (read by the model only)
             let (kind, ad, active, rest) = (a[0], a[1], a[2], a[3]);
-            let nv = name_vals(&op.args[4..], 2);
+            let nv = name_vals(&op.args[5..], 2);
             match kind {
                 0 => {
                     let mut l = http_base(ad, rest);
